@@ -278,6 +278,59 @@ class OsShim:
         t.kind[k] = "dir"
 
 
+    # -- the rest of the os surface a filestore could plausibly use
+    unlink = remove
+
+    @staticmethod
+    def rename(a, b):
+        _os_move(OsPath(a).key(), OsPath(b).key(), overwrite=True)
+
+    replace = rename
+
+    @staticmethod
+    def makedirs(p, mode=0o777, exist_ok=False):
+        k = OsPath(p).key()
+        t = OS.tree
+        par = PARENT.get(k)
+        if par is not None and not t.exists(par):
+            OsShim.makedirs(par, exist_ok=True)
+        if t.exists(k):
+            if t.is_dir(k) and exist_ok:
+                return
+            raise FileExistsError(k)
+        OsShim.mkdir(k)
+
+    @staticmethod
+    def removedirs(p):
+        k = OsPath(p).key()
+        OsShim.rmdir(k)
+        par = PARENT.get(k)
+        while par is not None:
+            try:
+                OsShim.rmdir(par)
+            except OSError:
+                break
+            par = PARENT.get(par)
+
+    @staticmethod
+    def renames(old, new):
+        ko, kn = OsPath(old).key(), OsPath(new).key()
+        if PARENT.get(kn) is not None and not OS.tree.exists(PARENT[kn]):
+            OsShim.makedirs(PARENT[kn])
+        OsShim.rename(ko, kn)
+        if PARENT.get(ko) is not None:
+            try:
+                OsShim.removedirs(PARENT[ko])
+            except OSError:
+                pass
+
+    class path:  # noqa: N801 - os.path
+        exists = staticmethod(lambda p: OS.tree.exists(OsPath(p).key()))
+        isdir = staticmethod(lambda p: OS.tree.is_dir(OsPath(p).key()))
+        isfile = staticmethod(lambda p: OS.tree.kind.get(OsPath(p).key()) == "file")
+        getsize = staticmethod(lambda p: OsPath(p).stat().st_size)
+
+
 class ShutilShim:
     @staticmethod
     def rmtree(p):
